@@ -377,7 +377,8 @@ func (r *receiver) run(ctx context.Context) error {
 	}
 
 	// although we don't allow tranferring metadataPath, make sure there was no preexisting file/symlink
-	os.Remove(filepath.Join(r.dest, metadataPath))
+	// (or directory: in merge mode, or behind a Filter, nothing has removed a stale one)
+	os.RemoveAll(filepath.Join(r.dest, metadataPath))
 
 	f, err := os.OpenFile(filepath.Join(r.dest, metadataPath), os.O_WRONLY|os.O_CREATE|os.O_TRUNC, 0644)
 	if err != nil {
